@@ -593,6 +593,43 @@ pub fn check(case: &Case, obs: &mut Obs) -> Result<(), Failure> {
             )
         }
     };
+    // "deterministic": the result is a function of (translator, bytes, address, options), not of
+    // what was lifted before on this thread.  One case in four is lifted a second time - for the
+    // two x86 translators after the OTHER one has lifted the same bytes - and must come out the same.
+    if case.vseed % 4 == 0 {
+        let sibling = match name {
+            "x86" => Some("amd64"),
+            "amd64" => Some("x86"),
+            "mips" => Some("mipsel"),
+            "mipsel" => Some("mips"),
+            "aarch64" => Some("aarch64eb"),
+            "aarch64eb" => Some("aarch64"),
+            _ => None,
+        };
+        if let Some(sib) = sibling {
+            let other = translator_of(TRANSLATORS.iter().position(|t| *t == sib).unwrap());
+            let _ = guard(|| other.translate_block(&case.bytes, case.address, &options));
+            obs.class("relifted-after-the-sibling-translator");
+        }
+        if let Ok(again) = guard(|| tr.translate_block(&case.bytes, case.address, &options)) {
+            let same = match (&r, &again) {
+                (Ok(a), Ok(b)) => a.address() == b.address() && a.length() == b.length() && a.successors() == b.successors() && a.instructions() == b.instructions(),
+                (Err(_), Err(_)) => true,
+                _ => false,
+            };
+            if !same {
+                let show = |x: &Result<falcon::translator::BlockTranslationResult, falcon::Error>| match x {
+                    Ok(b) => format!("{} instruction(s), {} byte(s), successors {:x?}", b.instructions().len(), b.length(), b.successors().iter().map(|s| s.0).collect::<Vec<_>>()),
+                    Err(e) => format!("Err({})", e),
+                };
+                fv::fail!(
+                    format!("C05|{}|not-a-function-of-its-input|{}", fam, if sibling.is_some() { "after-sibling-translator" } else { "repeated" }),
+                    "{} translate_block({:02x?}, 0x{:x}) gave [{}] and, lifted again{}, [{}]",
+                    name, case.bytes, case.address, show(&r), sibling.map(|s| format!(" after {} lifted the same bytes", s)).unwrap_or_default(), show(&again)
+                );
+            }
+        }
+    }
     let r = match r {
         Ok(r) => r,
         Err(_) => {
